@@ -38,7 +38,8 @@ def expression_set(tier):
                 E.append((op, a, x))
     # operands containing map(): simple and compound, on either side of simple and compound operands
     maps_simple = [("cmp", "tags", ("k", ("map", "upper")), "==", "A"), ("cmp", "tags", ("k", ("map", "upper")), "==", "B"),
-                   ("cmp", "fields", ("x", ("map", "neg")), "<", 0)]
+                   ("cmp", "fields", ("x", ("map", "neg")), "<", 0),
+                   ("cmp", "tags", (("map", "ident"), "k"), "==", "a"), ("cmp", "fields", (("map", "ident"), "x"), ">=", 1.5)]
     maps_compound = [("not", maps_simple[0]), ("and", d0[1], maps_simple[1]), ("or", maps_simple[2], d0[3])]
     plain = d0[:3] + d1c[:6] + d1c[-4:]
     for mq in maps_simple + maps_compound:
